@@ -588,32 +588,41 @@ func (f *fnTrans) lookupAt(b *ssa.BasicBlock, st *State, phiOverride map[string]
 				return TV{(&sv).loadNoSafety(a), deref(fv.Type())}, true
 			}
 		}
-		// loop-carried variables of enclosing loops (header phis that dominate b), innermost first
+		// The reaching definition of the source variable at b: among the phis named after it
+		// and its debug references in blocks dominating b (a chain in the dominator tree),
+		// the latest one.
+		var best ssa.Value
+		var bestAddr bool
+		var bestBlk *ssa.BasicBlock
+		bestIdx := -1
+		later := func(blk *ssa.BasicBlock, idx int) bool {
+			if bestBlk == nil {
+				return true
+			}
+			if blk == bestBlk {
+				return idx > bestIdx
+			}
+			return bestBlk.Dominates(blk)
+		}
 		if b != nil {
-			var bestPhi *ssa.Phi
-			for hdr := range f.loops {
-				if !(hdr == b || hdr.Dominates(b)) {
+			for _, blk := range f.fn.Blocks {
+				if !(blk == b || blk.Dominates(b)) {
 					continue
 				}
-				for _, ins := range hdr.Instrs {
+				for i, ins := range blk.Instrs {
 					phi, ok := ins.(*ssa.Phi)
 					if !ok {
 						break
 					}
-					if phi.Comment == name {
-						if _, seen := f.vals[phi]; seen && (bestPhi == nil || bestPhi.Block().Dominates(hdr)) {
-							bestPhi = phi
-						}
+					if phi.Comment != name {
+						continue
+					}
+					if _, seen := f.vals[phi]; seen && later(blk, i) {
+						best, bestAddr, bestBlk, bestIdx = phi, false, blk, i
 					}
 				}
 			}
-			if bestPhi != nil && len(f.debug[name]) == 0 {
-				return TV{f.vals[bestPhi], bestPhi.Type()}, true
-			}
 		}
-		// address-taken locals (Alloc with that comment)
-		var best ssa.Value
-		var bestAddr bool
 		for _, d := range f.debug[name] {
 			db := d.Block()
 			if b != nil && !(db == b || db.Dominates(b)) {
@@ -624,7 +633,15 @@ func (f *fnTrans) lookupAt(b *ssa.BasicBlock, st *State, phiOverride map[string]
 					continue
 				}
 			}
-			best, bestAddr = d.X, d.IsAddr
+			idx := 0
+			for i, ins := range db.Instrs {
+				if ins == ssa.Instruction(d) {
+					idx = i
+				}
+			}
+			if b == nil || later(db, idx) {
+				best, bestAddr, bestBlk, bestIdx = d.X, d.IsAddr, db, idx
+			}
 		}
 		if best == nil {
 			// address-taken locals and named results kept in cells: find the cell by its name
@@ -1054,6 +1071,11 @@ func TranslateFn(w *World, fn *ssa.Function) *FnVC {
 		t := f.fresh("p_"+p.Name(), w.SortOf(p.Type()))
 		f.vals[p] = t
 		f.vc.ParamConsts = append(f.vc.ParamConsts, t.S)
+		if f.isConstructing(p) {
+			// the object is handed in half-built: only the reference is well-formed
+			f.fact(True, And(Ge(t, IntLit(0)), Le(App("root", SInt, t), f.heap("G$allocTop"))))
+			continue
+		}
 		f.fact(True, f.rangeFact(t, p.Type()))
 	}
 	for _, fv := range fn.FreeVars {
@@ -1595,6 +1617,20 @@ func (f *fnTrans) loopBack(li *loopInfo, from *ssa.BasicBlock) {
 		ob := f.oblige("variant", fmt.Sprintf("loop %d variant decreases and is bounded", li.ord), li.header.Instrs[0].Pos(), f.allProps, guard, And(Lt(n.T, o.T), Ge(o.T, IntLit(0))))
 		ob.Name = fmt.Sprintf("%s/loop%d/variant@b%d", f.name, li.ord, from.Index)
 	}
+}
+
+// isConstructing: the contract declares that this parameter's object is under construction.
+func (f *fnTrans) isConstructing(v ssa.Value) bool {
+	p, ok := v.(*ssa.Parameter)
+	if !ok || f.c == nil {
+		return false
+	}
+	for _, n := range f.c.Constructs {
+		if n == p.Name() {
+			return true
+		}
+	}
+	return false
 }
 
 // typeInv instantiates the declared invariants of a struct type at reference t.
